@@ -40,7 +40,13 @@ def code_keywords(tokens):
     obj = ParseMCNPCell.__new__(ParseMCNPCell)
     obj.transforms = TRTABLE
     kws = obj.parse_keywords(list(reversed(tokens)))
-    return {'imp': dict(kws['imp_by_particle'] or {}), 'u': kws['u'], 'mat': kws['material'], 'rho': kws['density'],
+    # the per-particle map is internal bookkeeping of parse_keywords: when a version of the code does not expose it,
+    # the documented result (the cell importance = maximum over the particle types) is compared instead
+    if 'imp_by_particle' in kws:
+        imp = dict(kws['imp_by_particle'] or {})
+    else:
+        imp = ('max', kws['importance'])
+    return {'imp': imp, 'u': kws['u'], 'mat': kws['material'], 'rho': kws['density'],
             'lat': kws['lattice'], 'f_univs': kws['f_univs'], 'f_params': kws['f_params'], 'trcl': kws['trcl'],
             'f_bounds': kws['f_bounds']}
 
@@ -139,8 +145,11 @@ def kwmodel_case(seed, rng, ctx):
         if isinstance(exp, tuple) or isinstance(code, tuple):
             if not (isinstance(exp, tuple) and isinstance(code, tuple)):
                 dis('model+post %r / code %r' % (exp, code))
-        elif any(exp[k] != code[k] for k in exp if exp[k] != 'not-compared'):
-            dis('model+post %r / code %r' % (exp, code))
+        else:
+            if isinstance(code['imp'], tuple):
+                exp = dict(exp, imp=('max', max(exp['imp'].values()) if exp['imp'] else None))
+            if any(exp[k] != code[k] for k in exp if exp[k] != 'not-compared'):
+                dis('model+post %r / code %r' % (exp, code))
     return dict(hashes=[key], nontrivial_hashes=[key] if len(toks) > 2 else [],
                 dist={'kwmodel:error' if isinstance(code, tuple) else 'kwmodel:ok': 1, 'kwmodel:tokens': len(toks)},
                 sample={'tokens': toks, 'code': repr(code)[:300]}, failures=fails)
